@@ -11,6 +11,7 @@ import (
 	"encoding/pem"
 	"fmt"
 	"math/big"
+	"net"
 	"os"
 	"path/filepath"
 	"regexp"
@@ -19,6 +20,7 @@ import (
 	"text/template"
 	"time"
 
+	"github.com/IBM/sarama"
 	"github.com/spf13/viper"
 	"go.uber.org/zap"
 	"go.uber.org/zap/zapcore"
@@ -317,7 +319,40 @@ func (d *cDesc) profileFacts(f *cfgFiles, name string) string {
 		}
 		x = p.TLS
 	}
-	return strings.Join([]string{bit(name != ""), bit(p != nil), bit(verifhook.KafkaVersionOK(version)), strings.ReplaceAll(f.tlsFacts(x), ",", "/")}, ",")
+	return strings.Join([]string{bit(name != ""), bit(p != nil), bit(saramaParses(version)) + "/" + hexName(version), strings.ReplaceAll(f.tlsFacts(x), ",", "/")}, "~")
+}
+
+// addrFacts: what the STANDARD LIBRARY says about one host:port string (not Burrow's helpers)
+func addrFacts(a string) string {
+	host, port, err := net.SplitHostPort(a)
+	if err != nil {
+		return "0,-,0,0,0"
+	}
+	_, perr := strconv.Atoi(port)
+	allNum := true
+	for _, part := range strings.Split(host, ".") {
+		if _, e := strconv.Atoi(part); e != nil {
+			allNum = false
+			break
+		}
+	}
+	return strings.Join([]string{"1", hexName(host), bit(perr == nil), bit(net.ParseIP(host) != nil), bit(allNum)}, ",")
+}
+
+func addrListFacts(as []string) string {
+	if len(as) == 0 {
+		return "-"
+	}
+	out := make([]string, len(as))
+	for i, a := range as {
+		out[i] = addrFacts(a)
+	}
+	return strings.Join(out, "+")
+}
+
+func saramaParses(v string) bool {
+	_, err := sarama.ParseKafkaVersion(v)
+	return err == nil
 }
 
 func (d *cDesc) facts(f *cfgFiles) string {
@@ -331,7 +366,7 @@ func (d *cDesc) facts(f *cfgFiles) string {
 	if d.ZkRoot != nil {
 		root = *d.ZkRoot
 	}
-	zk := fmt.Sprintf("%d:%s:%s", len(d.ZkServers), bit(verifhook.ValidateHostList(d.ZkServers)), bit(verifhook.ValidateZookeeperPath(root)))
+	zk := fmt.Sprintf("%s:%s", addrListFacts(d.ZkServers), hexName(root))
 	var st, ev, hs, nt, cl, co []string
 	for _, m := range d.Storage {
 		q := int64(1)
@@ -348,17 +383,17 @@ func (d *cDesc) facts(f *cfgFiles) string {
 		ev = append(ev, strings.Join([]string{hexName(m.Class), bit(e >= 0 && e < 9223372036)}, ":"))
 	}
 	for _, m := range d.Listeners {
-		hs = append(hs, bit(verifhook.ValidateHostPort(m.Address, true))+":"+f.tlsFacts(m.TLS))
+		hs = append(hs, addrFacts(m.Address)+":"+f.tlsFacts(m.TLS))
 	}
 	for _, m := range d.Notifiers {
 		extraOK := !(m.ExtraCa != "" && !m.NoVerify && !readable(f.path(m.ExtraCa)))
 		auth := strings.ToLower(m.Auth)
 		nt = append(nt, strings.Join([]string{bit(m.Legacy != ""), bit(reOK(m.Allow)), bit(reOK(m.Deny)), bit(tmplOK(f, m.TmplOpen)), bit(m.SendClose), bit(tmplOK(f, m.TmplClose)),
 			hexName(m.Class), bit(m.URLOpen != ""), bit(m.URLClose != ""), bit(extraOK),
-			bit(verifhook.ValidateHostList([]string{fmt.Sprintf("%s:%v", m.Server, m.Port)})), bit(m.From != ""), bit(m.To != ""), bit(auth == "" || auth == "plain" || auth == "crammd5")}, ":"))
+			addrFacts(fmt.Sprintf("%s:%v", m.Server, m.Port)), bit(m.From != ""), bit(m.To != ""), bit(auth == "" || auth == "plain" || auth == "crammd5")}, ":"))
 	}
 	for _, m := range d.Clusters {
-		cl = append(cl, strings.Join([]string{hexName(m.Class), d.profileFacts(f, m.Profile), strconv.Itoa(len(m.Servers)), bit(verifhook.ValidateHostList(m.Servers))}, ":"))
+		cl = append(cl, strings.Join([]string{hexName(m.Class), d.profileFacts(f, m.Profile), addrListFacts(m.Servers)}, ":"))
 	}
 	for _, m := range d.Consumers {
 		known := false
@@ -371,8 +406,8 @@ func (d *cDesc) facts(f *cfgFiles) string {
 		if m.ZkPath != nil {
 			zp = *m.ZkPath + "/consumers"
 		}
-		co = append(co, strings.Join([]string{bit(known), hexName(m.Class), d.profileFacts(f, m.Profile), strconv.Itoa(len(m.Servers)), bit(verifhook.ValidateHostList(m.Servers)),
-			bit(verifhook.ValidateZookeeperPath(zp)), bit(m.Legacy != ""), bit(reOK(m.Allow)), bit(reOK(m.Deny))}, ":"))
+		co = append(co, strings.Join([]string{bit(known), hexName(m.Class), d.profileFacts(f, m.Profile), addrListFacts(m.Servers),
+			hexName(zp), bit(m.Legacy != ""), bit(reOK(m.Allow)), bit(reOK(m.Deny))}, ":"))
 	}
 	hn := d.NotifierSection || len(d.Notifiers) > 0
 	local := !hn && len(d.Clusters) == 0 && len(d.Consumers) == 0
@@ -651,7 +686,32 @@ type cfgEdit struct {
 	apply func(g *gen, d *cDesc) bool
 }
 
+// addresses and paths whose validity the generator does not know: model and implementation must agree
+var addrZoo = []string{"a_b:1", "a_b.c:1", "a_b_c:1", "xn--a.b:1", "1a.2b:1", "a.b.:1", "a..b:1", "-a:1", "a-:1", "h:+1", "h:-1", "h:99999999", "h:0x10", "h:1_0", "h: 1",
+	"h:", ":1", ":", ":+1", ":http", "[::1]:1", "[h]:1", "[fe80::1%eth0]:1", "::1:1", "1.2.3.4:1", "1.2.3:1", "123:1", "256.1.1.1:1", "01.2.3.4:1", "+1.2.3.4:1", "1.2.3.4.5:1",
+	strings.Repeat("a", 63) + ":1", strings.Repeat("a", 64) + ":1", "h:80:90", "h:1\n", "[::1:1", "::1]:1", "h:99999999999999999999", "a.b-c.d0:1", "A.B:1", "ü:1", "[1.2.3.4]:1", "[]:1"}
+var zkPathZoo = []string{"/", "/a", "/a/b", "/a.b", "/-a", "/_a", "", "a", "/a/", "//a", "//", "/a//b", "/.a", "/a b", "/a\n", "/a/.b", "/a/b.", "/ü"}
+
 var cfgEdits = []cfgEdit{
+	{"addr-zoo", "zoo", func(g *gen, d *cDesc) bool {
+		a := addrZoo[g.intn(len(addrZoo))]
+		switch g.intn(4) {
+		case 0:
+			d.Listeners = []cListener{{Name: "a", Address: a}}
+		case 1:
+			d.NotifierSection = true
+			d.ZkServers = []string{"zk1:2181", a}
+		case 2:
+			d.Clusters = append(d.Clusters, cCluster{Name: "zoocl", Class: "kafka", Servers: []string{a}})
+		default:
+			d.NotifierSection = true
+			if len(d.ZkServers) == 0 {
+				d.ZkServers = []string{"zk1:2181"}
+			}
+			d.ZkRoot = strp(zkPathZoo[g.intn(len(zkPathZoo))])
+		}
+		return true
+	}},
 	{"zk-no-servers", "zk", func(g *gen, d *cDesc) bool { d.NotifierSection = true; d.ZkServers = nil; return true }},
 	{"zk-empty-servers", "zk", func(g *gen, d *cDesc) bool { d.NotifierSection = true; d.ZkServers = []string{}; return true }},
 	{"zk-bad-server", "zk", func(g *gen, d *cDesc) bool {
